@@ -182,6 +182,11 @@ func hasInvalid(typ types.Type, visited map[types.Type]bool) bool {
 	if visited[typ] {
 		return false
 	}
+	if len(visited) > 10000 {
+		// A generic type that is instantiated with ever new types never ends unfolding (type T[A any] struct{ next *T[[]A] }).
+		// The compiler rejects it; here it is a type that is not resolved.
+		return true
+	}
 	visited[typ] = true
 	switch t := typ.(type) {
 	case *types.Basic:
